@@ -109,6 +109,7 @@ func init() {
 	registerDomain("dsum", []string{"T", "T", idxSort}, "Real",
 		`(assert (forall ((p T) (q T) (J (Array Int Int))) (! (= (dsum p q J) (dsumK p q J (dim p (- (rank p) 1)))) :pattern ((dsum p q J)))))`, "dsumK", "dim", "rank")
 	registerDomain("msum", []string{"T", "T", idxSort}, "Real", "")
+	registerDomain("msumK", []string{"T", "T", idxSort, "Int"}, "Real", "") // partial sums of the matrix product (spec axioms msumKDef / msumDef)
 
 	// upd(J, k, v): J with position k replaced by v
 	registerDomain("upd", []string{idxSort, "Int", "Int"}, idxSort, `(assert (forall ((J (Array Int Int)) (k Int) (v Int)) (! (= (upd J k v) (store J k v)) :pattern ((upd J k v)))))`)
@@ -120,11 +121,21 @@ func init() {
 	// ghost: every element of t is an independent fresh draw from U[l,u) / N(mu, sigma) (C18; the law itself is assumed)
 	registerDomain("drawnU", []string{"T", "Real", "Real"}, "Bool", "")
 	registerDomain("drawnN", []string{"T", "Real", "Real"}, "Bool", "")
+	// isDrawU(x, a, b) / isDrawN(x, m, s): x is a value returned by some call of distuv.Uniform{a,b}.Rand / Normal{m,s}.Rand
+	// (the draws themselves: drawUniform / drawNormal of the ghost tick, see evalDistuv)
+	registerDomain("isDrawU", []string{"Real", "Real", "Real"}, "Bool", `(declare-fun drawUniform (Real Real Int) Real)
+(assert (forall ((a Real) (b Real) (k Int)) (! (=> (< a b) (and (<= a (drawUniform a b k)) (< (drawUniform a b k) b))) :pattern ((drawUniform a b k)))))
+(assert (forall ((a Real) (b Real) (k Int)) (! (isDrawU (drawUniform a b k) a b) :pattern ((drawUniform a b k)))))
+(assert (forall ((x Real) (a Real) (b Real)) (! (=> (and (isDrawU x a b) (< a b)) (and (<= a x) (< x b))) :pattern ((isDrawU x a b)))))`)
+	registerDomain("isDrawN", []string{"Real", "Real", "Real"}, "Bool", `(declare-fun drawNormal (Real Real Int) Real)
+(assert (forall ((a Real) (b Real) (k Int)) (! (isDrawN (drawNormal a b k) a b) :pattern ((drawNormal a b k)))))`)
 	// element generators (DESIGN.md 3.3): genAt(f, J) is the element the generator f yields at abstract index J, over the
 	// enumeration shape genShape(f) of rank genRank(f)
 	// mix(P, J, k, n): the index that agrees with J on the coordinates k..n-1 and with P elsewhere
 	registerDomain("mix", []string{idxSort, idxSort, "Int", "Int"}, idxSort, `(assert (forall ((P (Array Int Int)) (J (Array Int Int)) (k Int) (n Int) (j Int)) (! (= (select (mix P J k n) j) (ite (and (<= k j) (< j n)) (select J j) (select P j))) :pattern ((select (mix P J k n) j)))))`)
 	registerDomain("genAt", []string{"Fn", idxSort}, "Data", "")
+	// genRel(f, J, v): v is an element the generator f may yield at abstract index J (scalar generators: v == genAt(f, J))
+	registerDomain("genRel", []string{"Fn", idxSort, "Data"}, "Bool", "")
 	registerDomain("genRank", []string{"Fn"}, "Int", "")
 	registerDomain("genShape", []string{"Fn"}, idxSort, "")
 	// ghost: the tensor that owns a gradient context (contexts are never shared)
